@@ -25,7 +25,7 @@ func init() {
 		Level: "exploration",
 		Rule: "even cases: a document is generated from an abstract record list (dates 0000-9999 boundary-biased, all entry kinds, shifts, 24:00 and 12-hour spellings, signed/zero/unnormalised durations, Unicode/tag/look-alike summaries, multi-line summaries) and rendered under a random admissible layout " +
 			"(2/3/4 spaces or tab per record, LF/CRLF/mixed, blank-line runs incl. whitespace-only lines, with/without final newline); klog's serial and a parallel parser must return exactly the generating records. " +
-			"odd cases: 1-3 rule-violating edits from a catalogue of 16 operators (bad dates, headline text, indentation faults, malformed values, reversed range, second/shifted open range, blank-led summary, blank line in record, stray text …) are applied; " +
+			"odd cases: 1-3 rule-violating edits from a catalogue of 18 operators (bad dates, headline text, indentation faults, malformed values, reversed range, second/shifted open range, blank-led summary, blank line in record, stray text …) are applied; " +
 			"a mutant is used only if the independent line automaton (harness/ref/recognise.go) judges it non-conforming; klog must return no records and at least one error. " +
 			"non-trivial & distinct: hash set of documents with >=2 records, a shifted/24:00/12h time and a non-default layout, and of mutants per (operator, position class, layout class, text hash)",
 		Assumptions: []string{
